@@ -250,6 +250,38 @@ def value_rules(rep, mod, results, tagD):
             rep.violated(key, "R04.prov", "%s (%s): %s" % (op["body"], tagD, "; ".join(sorted(set(bad)))), dict(operation=op["body"], problems=sorted(set(bad))))
         else:
             rep.ok(key + "#" + tagD, "R04.prov", None)
+    # R04.source: when the source is a contiguous object (an owning array or an array_ref) the counted element-copy / element-move primitive reads
+    # from exactly the source's element pointer (its base_ field): not from origin() (which differs for non-zero index bases), not from an offset of it
+    CONTIG = {"ctor_copy": "Arr", "sctor_copy": "SArr", "sctor_move": "SArr", "ctor_from_ref": "Ref", "ctor_from_mref": "Ref", "ctor_from_rref": "Ref",
+              "ctor_from_ref_alloc": "Ref", "sctor_from_ref": "Ref", "sctor_from_mref": "Ref", "sctor_from_rref": "Ref", "sctor_from_ref_alloc": "Ref",
+              "assign_copy": "Arr", "sassign_copy": "SArr", "assign_other_alloc_array": "Arr"}
+    for n, srct in sorted(CONTIG.items()):
+        if n not in results:
+            continue
+        key = "R04.source@%s" % n
+        try:
+            boff = mod.offsets_for(srct)["base"]
+        except common.AnalysisBroken:
+            continue
+        bad, seen = [], 0
+        for r in results[n]:
+            if r["outcome"] != "ret":
+                continue
+            for e in r["events"]:
+                if e[0] not in ("construct", "assign") or len(e) < 4 or not re.search(r"(copy_n|move_n)(_t)?$", str(e[1])):
+                    continue
+                # argument order: alloc_uninitialized_*_n(alloc, first, count, dest) / adl_copy_n(first, count, dest)
+                k = 2 if "uninitialized" in str(e[1]) else 1
+                if len(e[3]) <= k:
+                    continue
+                srcv = typestate.strip(e[3][k])
+                seen += 1
+                if not (isinstance(srcv, tuple) and len(srcv) == 3 and srcv[0] == "init" and srcv[1] == ("param", 1) and srcv[2] == boff):
+                    bad.append("%s reads its elements from %s, expected the source's element pointer (its base_)" % (str(e[1])[-36:], typestate.short_t(srcv, 80)))
+        if bad:
+            rep.violated(key, "R04.source", "%s (%s): %s" % (mod.ops[n]["body"], tagD, sorted(set(bad))[0]), dict(op=n, problems=sorted(set(bad))))
+        elif seen:
+            rep.ok(key + "#" + tagD, "R04.source", None)
     # R04.extents: after a copy / copy-assignment the destination has the source's extents: its final layout is the source's layout, or is built from
     # the source's extensions(), or is the unchanged old layout on a path where the extents compared equal (or the self-assignment early return);
     # an empty layout is accepted when the path says the source has no elements
